@@ -38,7 +38,7 @@ SUB = {
 def words_bound(words, quick, base=3):
     """exhaustive bound in words for an alphabet: the quick bound, one more in the thorough tier where the alphabet is small enough
     for the extra level to stay in the millions of states (|alphabet| ^ bound sources, each parsed up to three times by the machine)"""
-    return base if quick or len(words) > 16 else base + 1
+    return base if quick or len(words) > 14 else base + 1
 
 
 def mc_strings(d, name, scopes, userskip=(), invariants=ALL_INV, dump=True, sources=(), runs='BC'):
@@ -259,7 +259,7 @@ def standard(chk, scopes, inv, clauses, what, extra_sources=(), sources=(), skip
     if simulate_words:
         # random long sources from TLC's simulation mode (seeded): the machine's verdicts on them are replayed like the others
         sim = explore(chk, 'simulate', [(simulate_words, 22, 6)], userskip=skip, invariants=inv, timeout=timeout, runs=runs,
-                      simulate=60 if chk.tier == 'quick' else 4000, depth=6000)
+                      simulate=60 if chk.tier == 'quick' else 300, depth=6000)
         model_must_hold(chk, sim)
         recs += sim.records
     bad = replay(chk, recs, skip)
